@@ -30,7 +30,9 @@ import (
 	"golang.org/x/mod/module"
 )
 
-const vRepo = "example.com/u"
+// the repository all projects of a universe live in: an arbitrary host (located by probing path
+// prefixes) or a well-known one (located by its shape)
+var vRepo = "example.com/u"
 
 type vQuery struct {
 	Kind string `json:"kind"`
@@ -41,6 +43,35 @@ type vOp struct {
 	Kind string `json:"kind"`
 	Path string `json:"path"`
 	Q    vQuery `json:"q"`
+	From int    `json:"from,omitempty"` // apply to the result of the From-th operation (1-based) instead of the roots
+}
+
+// Version numbers: n < 100 is the tag v?.n.0; n >= 100 is 100*minor + 10*patch + k, the tag
+// v?.minor.patch (k = 0) or the untagged revision that follows it (k = 5, a pseudo-version).
+// The pseudo-version strings depend on the revision, so they are fixed per universe.
+var (
+	vPseudo    = map[string]string{} // node -> pseudo-version
+	vPseudoRev = map[string]string{} // path + "@" + pseudo-version -> node
+)
+
+func vSplit(node string) (string, int) {
+	i := strings.LastIndexByte(node, '/')
+	n, _ := strconv.Atoi(node[i+1:])
+	return node[:i], n
+}
+
+func vMajor(p string) string {
+	if j := strings.IndexByte(p, '@'); j >= 0 {
+		return p[j+1:]
+	}
+	return "v1"
+}
+
+func vTag(p string, n int) string {
+	if n < 100 {
+		return fmt.Sprintf("%s.%d.0", vMajor(p), n)
+	}
+	return fmt.Sprintf("%s.%d.%d", vMajor(p), n/100, (n/10)%10)
 }
 
 type vUniverse struct {
@@ -53,6 +84,7 @@ type vCase struct {
 	Roots []string  `json:"roots"`
 	Names []string  `json:"names,omitempty"` // requirement names of the roots (default r<i>)
 	Ops   []vOp     `json:"ops"`
+	Host  string    `json:"host,omitempty"` // "github": a well-known hosting service
 }
 
 // linkRepository is a fake repository whose fetched trees also contain a symbolic link
@@ -81,30 +113,77 @@ func (d linkDialer) dialRepository(ctx context.Context, kind, address string) (v
 
 // node "a/3" or "a@v2/1" -> module version
 func vModule(node string) module.Version {
-	i := strings.LastIndexByte(node, '/')
-	p, n := node[:i], node[i+1:]
-	major := "v1"
-	if j := strings.IndexByte(p, '@'); j >= 0 {
-		major = p[j+1:]
+	p, n := vSplit(node)
+	if pv, ok := vPseudo[node]; ok {
+		return module.Version{Path: vRepo + "/" + p, Version: pv}
 	}
-	return module.Version{Path: vRepo + "/" + p, Version: fmt.Sprintf("%s.%s.0", major, n)}
+	return module.Version{Path: vRepo + "/" + p, Version: vTag(p, n)}
 }
 
 func vNode(m module.Version) string {
 	p := strings.TrimPrefix(m.Path, vRepo+"/")
-	parts := strings.Split(strings.TrimPrefix(m.Version, "v"), ".")
-	if len(parts) == 3 && parts[2] == "0" {
+	if node, ok := vPseudoRev[p+"@"+m.Version]; ok {
+		return node
+	}
+	v := m.Version
+	pseudo := 0
+	if module.IsPseudoVersion(v) {
+		// a pseudo-version this universe does not have: number it after its base
+		base, err := module.PseudoVersionBase(v)
+		if err != nil || base == "" {
+			return p + "/?" + m.Version
+		}
+		v, pseudo = base, 7 // 7: not a revision of this universe
+	}
+	parts := strings.Split(strings.TrimPrefix(v, "v"), ".")
+	if len(parts) != 3 {
+		return p + "/?" + m.Version
+	}
+	minor, e1 := strconv.Atoi(parts[1])
+	patch, e2 := strconv.Atoi(parts[2])
+	if e1 != nil || e2 != nil {
+		return p + "/?" + m.Version
+	}
+	if patch == 0 && pseudo == 0 && !vRich {
 		return p + "/" + parts[1]
 	}
-	return p + "/?" + m.Version
+	return p + "/" + strconv.Itoa(minor*100+patch*10+pseudo)
+}
+
+var vRich bool
+
+func vRefName(p string, n int) string {
+	return "br-" + strings.ReplaceAll(p, "@", "-") + "-" + strconv.Itoa(n)
 }
 
 func vDialer(u *vUniverse) testDialer {
 	nodes := make([]string, 0, len(u.Req))
+	vRich = false
 	for n := range u.Req {
 		nodes = append(nodes, n)
+		if _, k := vSplit(n); k >= 100 {
+			vRich = true
+		}
 	}
 	sort.Strings(nodes)
+	vPseudo, vPseudoRev = map[string]string{}, map[string]string{}
+	if vRich {
+		// one linear history in which every project's versions appear in increasing order,
+		// so the closest tagged ancestor of an untagged revision is the tag it follows
+		sort.SliceStable(nodes, func(i, j int) bool {
+			_, a := vSplit(nodes[i])
+			_, b := vSplit(nodes[j])
+			return a < b
+		})
+		for i, n := range nodes {
+			if p, k := vSplit(n); k >= 100 && k%10 == 5 {
+				id := strconv.Itoa(i + 1)
+				pv := module.PseudoVersion(vMajor(p), vTag(p, k-5), time.Unix(100*int64(i+1), 0), id)
+				vPseudo[n] = pv
+				vPseudoRev[p+"@"+pv] = n
+			}
+		}
+	}
 	refs := map[string]string{}
 	var revs []map[string]*mvsProject
 	for i, n := range nodes {
@@ -115,6 +194,12 @@ func vDialer(u *vUniverse) testDialer {
 			reqs = append(reqs, vModule(r))
 		}
 		revs = append(revs, map[string]*mvsProject{dir: {Version: m, Requirements: reqs}})
+		if p, k := vSplit(n); vRich {
+			refs[vRefName(p, k)] = strconv.Itoa(i + 1)
+			if k%10 == 5 {
+				continue // an untagged revision
+			}
+		}
 		refs[dir+"/"+m.Version] = strconv.Itoa(i + 1)
 	}
 	refs["main"] = strconv.Itoa(len(nodes))
@@ -145,14 +230,10 @@ func vReqsJSON(reqs map[string]project.RequirementConfig) map[string]string {
 
 func vQueryString(op vOp) string {
 	p := vRepo + "/" + op.Path
-	v := func(n int) string {
-		major := "v1"
-		if j := strings.IndexByte(op.Path, '@'); j >= 0 {
-			major = op.Path[j+1:]
-		}
-		return fmt.Sprintf("%s.%d.0", major, n)
-	}
+	v := func(n int) string { return vTag(op.Path, n) }
 	switch op.Q.Kind {
+	case "ref":
+		return p + "@" + vRefName(op.Path, op.Q.N)
 	case "latest":
 		return p + "@latest"
 	case "exact":
@@ -216,6 +297,10 @@ func TestVerifMVS(t *testing.T) {
 				skipUntil = ""
 			}
 			continue
+		}
+		vRepo = "example.com/u"
+		if c.Host == "github" {
+			vRepo = "github.com/vorg/vrepo"
 		}
 		dialer := vDialer(&c.U)
 		cache := t.TempDir()
@@ -300,8 +385,15 @@ func TestVerifMVS(t *testing.T) {
 			}
 			wg.Wait()
 		}
-		for _, op := range c.Ops {
+		afters := make([]map[string]project.RequirementConfig, len(c.Ops)+1)
+		for oi, op := range c.Ops {
 			root := vRootConfig(c.Roots, c.Names, rnd)
+			if op.From > 0 {
+				if op.From > oi || afters[op.From] == nil {
+					continue // the operation this one follows did not produce requirements
+				}
+				root = &project.Config{Name: "root", Requirements: afters[op.From]}
+			}
 			ev := map[string]any{"ev": "Op", "kind": op.Kind, "path": op.Path, "q": op.Q, "before": vReqsJSON(root.Requirements),
 				"after": map[string]string{}, "again": map[string]string{}, "err": "", "expect_ok": op.Kind != "get"}
 			if timedOut {
@@ -331,6 +423,7 @@ func TestVerifMVS(t *testing.T) {
 					return
 				}
 				ev["after"] = vReqsJSON(after)
+				afters[oi+1] = after
 				again, err := apply(&project.Config{Name: "root", Requirements: after})
 				if err != nil {
 					ev["err"] = "second application: " + err.Error()
